@@ -51,12 +51,13 @@ MetConfigs ==
   \cup
   \* wind: the slab records carry no time stamp, so the readers tell the
   \* records of a step apart by their sizes: a slab must not have the size of
-  \* the time record (2 or 3 words) or of the dummy record (1 word), hence
-  \* grids of at least 4 cells.  Long files (7 steps) on the smallest grid
+  \* the dummy record (1 word), hence grids of at least 2 cells; slabs of the
+  \* size of the time record (2 or 3 words) are part of the domain (the
+  \* sequential reader rejects them: finding C09_K3).  Long files (7 steps) on the smallest grid
   \* exercise the step-count rule.
   { [fmt |-> "wind", spc |-> <<>>, nx |-> g[1], ny |-> g[2], nz |-> g[3], nt |-> nt,
      year |-> st[1], jjj |-> st[2], hour |-> st[3], h24 |-> FALSE, hdr3 |-> h3, lstag |-> 1, nv |-> 0] :
-      g \in { <<2, 2, 1>>, <<3, 2, 2>>, <<4, 1, 3>> }, nt \in {1, 2, 3, 7}, h3 \in BOOLEAN,
+      g \in { <<2, 2, 1>>, <<3, 2, 2>>, <<4, 1, 3>>, <<2, 1, 2>>, <<1, 3, 1>> }, nt \in {1, 2, 3, 7}, h3 \in BOOLEAN,
       st \in { <<1999, 365, 22>>, <<2000, 59, 20>>, <<2011, 1, 0>> } }
   \cup
   \* cloud/rain: 5 variables (CAMx >= 4.3) or 3 (older); configurations whose
